@@ -169,6 +169,27 @@ func TestC11(t *testing.T) {
 		}
 		wg.Wait()
 	}
+	// (3b) storms: rounds of simultaneous compilations of the gadget circuits that share
+	// package-level objects (different circuits at once: different wire numberings)
+	{
+		var sv []variant
+		for _, v := range vs {
+			if v.e.storm {
+				sv = append(sv, v)
+			}
+		}
+		for round := 0; round < r.Pick(4, 10) && len(sv) > 0; round++ {
+			var wg sync.WaitGroup
+			for k := 0; k < 6; k++ {
+				wg.Add(1)
+				go func(v variant) {
+					defer wg.Done()
+					run(v, "storm")
+				}(sv[k%len(sv)])
+			}
+			wg.Wait()
+		}
+	}
 	// (4) fresh processes (per-process map hash seeds)
 	nChild := r.Pick(2, 6)
 	var cmu sync.Mutex
